@@ -8,10 +8,10 @@ Local Open Scope nat_scope.
 
 (* for EVERY first answer outs0 and EVERY later answer outs (no assumption on the driver): a reported value is either X for a signal the first answer did not contain, or the value THIS call reported for THIS signal *)
 Theorem C03_no_misattribution :
-  forall (G : gen) (tc : testcase) (outs0 : list out_entry) (oi : list out_index)
+  forall (G : gen) (tc : testcase) (outs0 : list out_entry) (nout : nat) (oi : list out_index)
   (outs : list out_entry) (c c' : ctx) (vals : list outval),
   build_output_indices tc outs0 = Ok oi ->
-  extract_output_values G tc oi outs c = (c', Ok vals) ->
+  extract_output_values G tc nout oi outs c = (c', Ok vals) ->
   Forall2
   (fun (idx : entry_index) (v : outval) =>
   match nth_error (tc_signals tc) (ei_signal_index idx) with
@@ -28,10 +28,10 @@ Proof. exact no_misattribution. Qed.
 
 (* the layout being the same on every call: the value is the one the driver returned for that same signal in this call, whatever the order and whichever subset; X if never supplied *)
 Theorem C03_attribution_under_stable_layout :
-  forall (G : gen) (tc : testcase) (outs0 : list out_entry) (oi : list out_index)
+  forall (G : gen) (tc : testcase) (outs0 : list out_entry) (nout : nat) (oi : list out_index)
   (outs : list out_entry) (c c' : ctx) (vals : list outval),
   build_output_indices tc outs0 = Ok oi ->
-  extract_output_values G tc oi outs c = (c', Ok vals) ->
+  extract_output_values G tc nout oi outs c = (c', Ok vals) ->
   map oe_sig outs = map oe_sig outs0 ->
   Forall2
   (fun (idx : entry_index) (v : outval) =>
@@ -50,19 +50,16 @@ Theorem C03_attribution_under_stable_layout :
   end) (tc_expected_indices tc) vals.
 Proof. exact stable_layout_attribution. Qed.
 
-(* a first answer made of distinct expected signals passes the length check on every later call of the same layout *)
+(* an answer with the layout of the first answer passes the length check *)
 Theorem C03_length_check_passes :
-  forall (tc : testcase) (outs0 : list out_entry) (oi : list out_index),
-  build_output_indices tc outs0 = Ok oi ->
-  NoDup (map oe_sig outs0) ->
-  (forall o : out_entry,
-  In o outs0 ->
-  exists idx : entry_index,
-  In idx (tc_expected_indices tc) /\
-  nth_error (tc_signals tc) (ei_signal_index idx) = Some (oe_sig o) /\ is_virtual (oe_sig o) = false) ->
-  NoDup (map ei_signal_index (tc_expected_indices tc)) ->
-  NoDup (tc_signals tc) -> num_outputs oi = length outs0.
-Proof. exact length_check_passes'. Qed.
+  forall (G : gen) (tc : testcase) (outs0 : list out_entry) (oi : list out_index)
+  (outs : list out_entry) (c : ctx),
+  map oe_sig outs = map oe_sig outs0 ->
+  length outs = length outs0 /\
+  extract_output_values G tc (length outs0) oi outs c =
+  (ctx_swap_vars (fst (extract_loop G tc (combine (tc_expected_indices tc) oi) outs (ctx_swap_vars c))),
+  snd (extract_loop G tc (combine (tc_expected_indices tc) oi) outs (ctx_swap_vars c))).
+Proof. exact length_check_passes. Qed.
 
 (* an entry passes iff expected is X, or Z with output Z, or both numbers and equal *)
 Theorem C03_check_iff :
